@@ -71,8 +71,8 @@ Definition has_reply (s : cstate) : Prop := exists f, In (EReply f) (out s).
 
 Lemma drain_out_mono fuel : forall s e, In e (out s) -> In e (out (drain fuel s)).
 Proof.
-  induction fuel as [|k IH]; intros s e H; cbn [drain]; destruct (buf s) eqn:Eb; auto.
-  destruct (parse (n :: l)); cbn [out]; auto.
+  induction fuel as [|k IH]; intros s e H; cbn [drain]; destruct (buf s) as [|x r] eqn:Eb; auto.
+  destruct (parse (x :: r)); cbn [out]; auto.
   - apply IH. cbn [out]. apply in_or_app. now left.
   - apply in_or_app. now left.
   - apply in_or_app. now left.
@@ -90,7 +90,7 @@ Proof.
   destruct (buf s) as [|x r] eqn:Eb; [reflexivity|].
   destruct (parse (x :: r)) as [f n| | |f n] eqn:Ep; try reflexivity.
   apply (st_ok St) in Ep. destruct Ep as [Hn _].
-  apply IH; [|lia]. cbn [buf]. rewrite skipn_length. rewrite Eb in Hl. lia.
+  apply IH; [|lia]. cbn [buf]. rewrite skipn_length. cbn [length] in *. lia.
 Qed.
 
 Lemma drain_not_stuck (St : stable) : forall fuel s, (length (buf s) < fuel)%nat ->
@@ -100,11 +100,29 @@ Proof.
   destruct (buf s) as [|x r] eqn:Eb; [reflexivity|].
   destruct (parse (x :: r)) as [f n| | |f n] eqn:Ep; try reflexivity.
   apply (st_ok St) in Ep. destruct Ep as [Hn _].
-  rewrite IH; [reflexivity|]. cbn [buf]. rewrite skipn_length. rewrite Eb in Hl. lia.
+  rewrite IH; [reflexivity|]. cbn [buf]. rewrite skipn_length. cbn [length] in *. lia.
 Qed.
 
 Lemma skipn_app_le {A} n (a e : list A) : (n <= length a)%nat -> skipn n (a ++ e) = skipn n a ++ e.
 Proof. intros H. rewrite skipn_app. replace (n - length a)%nat with 0%nat by lia. reflexivity. Qed.
+
+(* one-step unfoldings of the loop *)
+Lemma drain_nil fuel s : buf s = [] -> drain fuel s = s.
+Proof. intros H. destruct fuel; cbn [drain]; now rewrite H. Qed.
+Lemma drain_ok k s f n : buf s <> [] -> parse (buf s) = POk f n ->
+  drain (S k) s = drain k {| buf := skipn n (buf s); out := out s ++ [EFrame f]; dead := dead s; stuck := stuck s |}.
+Proof. intros H E. cbn [drain]. destruct (buf s) eqn:Eb; [congruence|]. now rewrite E. Qed.
+Lemma drain_needmore k s : parse (buf s) = PNeedMore -> drain (S k) s = s.
+Proof. intros E. cbn [drain]. destruct (buf s) eqn:Eb; [reflexivity|]. now rewrite E. Qed.
+Lemma drain_err k s : buf s <> [] -> parse (buf s) = PErr ->
+  drain (S k) s = {| buf := []; out := out s ++ [EClose]; dead := true; stuck := stuck s |}.
+Proof. intros H E. cbn [drain]. destruct (buf s) eqn:Eb; [congruence|]. now rewrite E. Qed.
+Lemma drain_rep k s f n : buf s <> [] -> parse (buf s) = PErrReply f n ->
+  drain (S k) s = {| buf := skipn n (buf s); out := out s ++ [EReply f]; dead := dead s; stuck := stuck s |}.
+Proof. intros H E. cbn [drain]. destruct (buf s) eqn:Eb; [congruence|]. now rewrite E. Qed.
+
+Lemma app_not_nil {A} (a e : list A) : a <> [] -> a ++ e <> [].
+Proof. destruct a; [congruence|discriminate]. Qed.
 
 (* two consecutive reads = one read of the concatenation, unless a reply-error occurred (then both runs contain it) *)
 Lemma drain_then_feed (St : stable) : forall fuel s c, (length (buf s) < fuel)%nat -> dead s = false ->
@@ -112,34 +130,34 @@ Lemma drain_then_feed (St : stable) : forall fuel s c, (length (buf s) < fuel)%n
   \/ (has_reply (drain fuel s) /\ has_reply (drain (S (length (buf s ++ c))) (with_buf s (buf s ++ c)))).
 Proof.
   induction fuel as [|k IH]; intros s c Hl Hd; [lia|].
-  cbn [drain]. destruct (buf s) as [|x r] eqn:Eb.
-  - left. unfold feed. rewrite Hd, Eb. reflexivity.
-  - destruct (parse (x :: r)) as [f n| | |f n] eqn:Ep.
+  destruct (buf s) as [|x r] eqn:Eb.
+  - left. rewrite drain_nil by exact Eb. unfold feed. rewrite Hd, Eb. reflexivity.
+  - assert (Hne : buf s <> []) by (rewrite Eb; discriminate).
+    assert (Hne2 : buf (with_buf s ((x :: r) ++ c)) <> []) by (cbn [with_buf buf app]; discriminate).
+    rewrite <- Eb in *.
+    destruct (parse (buf s)) as [f n| | |f n] eqn:Ep.
     + (* POk *)
       pose proof (st_ok St _ _ _ Ep) as [Hn Hext].
-      set (s1 := {| buf := skipn n (x :: r); out := out s ++ [EFrame f]; dead := dead s; stuck := stuck s |}).
+      rewrite (drain_ok k s f n Hne Ep).
+      set (s1 := {| buf := skipn n (buf s); out := out s ++ [EFrame f]; dead := dead s; stuck := stuck s |}).
       assert (Hl1 : (length (buf s1) < k)%nat).
-      { cbn [buf s1]. rewrite skipn_length. cbn [length] in *. lia. }
+      { unfold s1. cbn [buf]. rewrite skipn_length. lia. }
       specialize (IH s1 c Hl1 Hd).
-      assert (Hr : drain (S (length ((x :: r) ++ c))) (with_buf s ((x :: r) ++ c))
-                   = drain (S (length (buf s1 ++ c))) (with_buf s1 (buf s1 ++ c))).
-      { cbn [drain with_buf buf app]. rewrite <- app_comm_cons. rewrite app_comm_cons. rewrite (Hext c).
-        cbn [out dead stuck]. rewrite skipn_app_le by (cbn [length]; lia).
-        change (skipn n (x :: r)) with (buf s1).
-        transitivity (drain (S (length (buf s1 ++ c))) (with_buf s1 (buf s1 ++ c))); [|reflexivity].
-        unfold with_buf. cbn [out dead stuck s1].
-        symmetry. apply (drain_fuel St).
-        - cbn [buf]. lia.
-        - cbn [buf s1]. rewrite !app_length, skipn_length. cbn [length]. lia. }
-      rewrite Hr. exact IH.
-    + (* PNeedMore *) left. unfold feed. rewrite Hd, Eb. reflexivity.
-    + (* PErr *) left. unfold feed at 1. cbn [dead].
-      cbn [drain with_buf buf app]. rewrite <- app_comm_cons, app_comm_cons. rewrite (st_err St _ Ep c).
-      reflexivity.
+      rewrite (drain_ok _ (with_buf s (buf s ++ c)) f n Hne2 (Hext c)).
+      cbn [with_buf buf out dead stuck]. rewrite skipn_app_le by lia.
+      replace (drain (length (buf s ++ c)) {| buf := skipn n (buf s) ++ c; out := out s ++ [EFrame f]; dead := dead s; stuck := stuck s |})
+        with (drain (S (length (buf s1 ++ c))) (with_buf s1 (buf s1 ++ c))); [exact IH|].
+      unfold with_buf, s1. cbn [out dead stuck buf].
+      symmetry. apply (drain_fuel St).
+      * cbn [buf]. lia.
+      * rewrite !app_length, skipn_length. lia.
+    + (* PNeedMore *) left. rewrite (drain_needmore k s Ep). unfold feed. rewrite Hd. reflexivity.
+    + (* PErr *) left. rewrite (drain_err k s Hne Ep). unfold feed at 1. cbn [dead].
+      rewrite (drain_err _ (with_buf s (buf s ++ c)) Hne2 (st_err St _ Ep c)). reflexivity.
     + (* PErrReply: both runs contain the reply *)
       right. pose proof (st_rep St _ _ _ Ep) as [Hn Hext]. split.
-      * exists f. cbn [out]. apply in_or_app. right. now left.
-      * exists f. cbn [drain with_buf buf app]. rewrite <- app_comm_cons, app_comm_cons. rewrite (Hext c).
+      * exists f. rewrite (drain_rep k s f n Hne Ep). cbn [out]. apply in_or_app. right. now left.
+      * exists f. rewrite (drain_rep _ (with_buf s (buf s ++ c)) f n Hne2 (Hext c)).
         cbn [out]. apply in_or_app. right. now left.
 Qed.
 
@@ -149,7 +167,7 @@ Proof.
   unfold feed at 2 3 4. destruct (dead s) eqn:Hd.
   - left. unfold feed. now rewrite Hd.
   - pose proof (drain_then_feed St (S (length (buf s ++ a))) (with_buf s (buf s ++ a)) b) as H.
-    cbn [with_buf buf dead] in H. specialize (H (Nat.lt_succ_diag_r _) Hd).
+    cbn [with_buf buf dead] in H. specialize (H ltac:(lia) Hd).
     rewrite <- app_assoc in H. unfold with_buf in *. cbn [out dead stuck] in *. exact H.
 Qed.
 
